@@ -21,6 +21,7 @@ import (
 	"github.com/verily-src/fhirpath-go/internal/narrow"
 	"golang.org/x/exp/constraints"
 	"google.golang.org/protobuf/proto"
+	"google.golang.org/protobuf/reflect/protoreflect"
 )
 
 // C15 — literals and value representations round-trip losslessly.
@@ -372,7 +373,26 @@ func c15Proto(env *core.Env, kind string, valueUs int64, tz string, prec int32) 
 		env.Violatef("C15/proto-sys/"+cls+"/value-differs", "%s (%q): system.From gives %s", d, s, fx.Render(sv))
 		return
 	}
-	if kind != "Instant" && p2 != nil && microsRepresentable(e) && !sameTemporalProto(e, p2) {
+	if kind != "Instant" && kind != "Time" && p2 != nil && prec <= 3 {
+		// date-only precisions: the element's value is its civil date down to the precision (a date has no
+		// offset; the proto's zone and the digits of value_us below the precision are not part of the value)
+		var s3 string
+		out = env.Guard("fhirconv format of round-tripped "+d, func() {
+			switch y := p2.(type) {
+			case *dtpb.Date:
+				s3 = fhirconv.DateToString(y)
+			case *dtpb.DateTime:
+				s3 = fhirconv.DateTimeToString(y)
+			}
+		})
+		if out.Panicked || out.Dead {
+			env.Violatef("C15/panic@"+out.Site+"/fhirconv", "%s: formatting the round-tripped element panicked: %s", d, out.PanicMsg)
+			return
+		}
+		if s3 != s || p2.ProtoReflect().Get(p2.ProtoReflect().Descriptor().Fields().ByName("precision")).Enum() != protoreflect.EnumNumber(prec) {
+			env.Violatef("C15/proto-sys/"+cls+"/roundtrip-differs", "%s (%q): proto -> System -> proto = %v (%q)", d, s, p2, s3)
+		}
+	} else if kind != "Instant" && p2 != nil && microsRepresentable(e) && !sameTemporalProto(e, p2) {
 		env.Violatef("C15/proto-sys/"+cls+"/roundtrip-differs", "%s: proto -> System -> proto = %v", d, p2)
 	}
 }
